@@ -180,6 +180,7 @@ asn1constraint_resolve(arg_t *arg, asn1p_constraint_t *ct, asn1p_expr_type_e ety
 				asn1p_constraint_type2str(ct->type),
 				asn1p_constraint_type2str(effective_type)
 			);
+			rvalue = -1;
 		}
 		effective_type = ct->type;
 		break;
